@@ -216,9 +216,26 @@ def guarded(fn, case: str, seconds: int = 20) -> str:
         return fn(case)
     except CaseTimeout:
         return "HANG(wall-clock)"
+    except Infra:
+        raise
+    except Exception as exc:  # noqa: BLE001
+        # the library did something the executor did not anticipate (only seen on modified trees): that is an
+        # observation (it will disagree with the model and be looked at), not a reason to abort the whole check
+        return f"RUN-ERROR:{type(exc).__name__}:{str(exc)[:120]}".replace("\n", " ")
     finally:
         signal.alarm(0)
         signal.signal(signal.SIGALRM, old)
+
+
+def safe_monitor(comp, case: str, out: str) -> list[str]:
+    """the component's property monitor; an observation it cannot read (executor error, hang, or an output shape
+    only a modified library produces) counts as 'no usable observation' for that case"""
+    if out.startswith("RUN-ERROR:") or out.startswith("HANG("):
+        return [f"{comp.LEAN_COMPONENT}.no-observation:" + out.split(":")[0].lower() + ":" + (out.split(":")[1] if ":" in out else "")]
+    try:
+        return list(comp.monitor(case, out))
+    except Exception as exc:  # noqa: BLE001
+        return [f"{comp.LEAN_COMPONENT}.unreadable-observation:{type(exc).__name__}"]
 
 
 def _worker(args):
@@ -356,9 +373,21 @@ def run_check(comp, tier: str, seed: int, replay: str | None = None) -> int:
     #    (`model_input`: replay of the observed linearisation = trace inclusion) and may supply its own
     #    agreement predicate (`agree`); the default is the same case line to both sides and equal output.
     real_out = run_real_many(comp, cases, procs)
-    model_in = getattr(comp, "model_input", lambda c, r: c)
+    _model_in = getattr(comp, "model_input", lambda c, r: c)
     canon = getattr(comp, "canon", lambda c, o: o)
-    agree = getattr(comp, "agree", lambda c, m, r: canon(c, m) == canon(c, r))
+    _agree = getattr(comp, "agree", lambda c, m, r: canon(c, m) == canon(c, r))
+
+    def model_in(c: str, r: str) -> str:
+        try:
+            return _model_in(c, r)
+        except Exception:  # noqa: BLE001  (observation of a shape only a modified library produces)
+            return "unreadable-observation"
+
+    def agree(c: str, m: str, r: str) -> bool:
+        try:
+            return bool(_agree(c, m, r))
+        except Exception:  # noqa: BLE001
+            return False
     model_out = run_model(comp.LEAN_COMPONENT, [model_in(c, r) for c, r in zip(cases, real_out)])
 
     def model_of(c: str, r: str) -> str:
@@ -371,7 +400,7 @@ def run_check(comp, tier: str, seed: int, replay: str | None = None) -> int:
     for i, (c, m, r) in enumerate(zip(cases, model_out, real_out)):
         if not agree(c, m, r):
             disagreements.append(i)
-        for sig in comp.monitor(c, r):
+        for sig in safe_monitor(comp, c, r):
             failures.setdefault(sig, []).append(i)
         if comp.nontrivial(c, r):
             nontrivial.add(case_hash(c))
@@ -385,7 +414,7 @@ def run_check(comp, tier: str, seed: int, replay: str | None = None) -> int:
     printed_known = set()
 
     def real_and_monitor(c: str) -> list[str]:
-        return comp.monitor(c, guarded(comp.run_real, c))
+        return safe_monitor(comp, c, guarded(comp.run_real, c))
 
     # 5a. monitor failures = the property fails on the real code for that input
     for sig, idxs in sorted(failures.items()):
@@ -512,7 +541,7 @@ def run_check(comp, tier: str, seed: int, replay: str | None = None) -> int:
         (VERIF / "evidence" / f"{pid}.json").write_text(json.dumps(ev, indent=1, ensure_ascii=False))
     else:
         for i, c in enumerate(cases):
-            print(f"case: {c}\n  implementation: {real_out[i]}\n  model:          {model_out[i]}\n  monitor: {comp.monitor(c, real_out[i]) or 'holds'}")
+            print(f"case: {c}\n  implementation: {real_out[i]}\n  model:          {model_out[i]}\n  monitor: {safe_monitor(comp, c, real_out[i]) or 'holds'}")
     for what, p, found in violations:
         tail = "" if found else " no-failing-input-found"
         print(f"VIOLATION property={pid} replay={p}{tail}")
